@@ -183,6 +183,8 @@ class Evaluator(Folder):
                 raise Unfoldable("store to " + unparse(t))
         elif isinstance(t, ast.Subscript):
             base = self.fold(t.value)
+            if type(base).__name__ == "AObj" and "_base_" in base.__dict__ and not _defines(base, "__setitem__"):
+                base = base.__dict__["_base_"]
             if isinstance(base, (list, dict, bytearray)):
                 if isinstance(t.slice, ast.Slice):
                     lo = self.fold(t.slice.lower) if t.slice.lower is not None else None
@@ -198,6 +200,26 @@ class Evaluator(Folder):
                 raise Unfoldable("store to " + unparse(t))
         else:
             raise Unfoldable("store to " + unparse(t))
+
+    def _local_import(self, st: ast.ImportFrom) -> None:
+        """`from .x import Name` inside a function (a lazy import that breaks an import cycle): the names of the package it
+        binds are bound in the local environment; imports of foreign modules are left to the name resolution of the module"""
+        pkg = self.mod.name.split(".")
+        base = pkg[: len(pkg) - st.level] if st.level else []
+        target = ".".join(base + (st.module.split(".") if st.module else []))
+        for a in st.names:
+            if a.name == "*":
+                continue
+            bound: Any = None
+            if target + "." + a.name in self.repo.modules:
+                bound = self.repo.modules[target + "." + a.name]
+            elif target in self.repo.modules:
+                bound = self.repo.module_member(target, a.name)
+            if isinstance(bound, ClassInfo):
+                self.env[a.asname or a.name] = bound
+            elif type(bound).__name__ == "FuncInfo":
+                self.env[a.asname or a.name] = FnRef(self.repo, bound, self.hook)
+            # (a module or a constant: resolved through the defining module when the name is used)
 
     def _truth(self, e: ast.expr) -> bool:
         v = self.fold(e)
@@ -323,6 +345,8 @@ class Evaluator(Folder):
             r.exc = exc_obj  # type: ignore
             raise r
         elif isinstance(st, (ast.Assert, ast.Pass, ast.Import, ast.ImportFrom, ast.FunctionDef)):
+            if isinstance(st, ast.ImportFrom) and self.repo is not None and self.mod is not None:
+                self._local_import(st)
             if isinstance(st, ast.Assert) and CHECK_ASSERTS:
                 # (only where a rule asks for it) an assertion that evaluates to false is the AssertionError it would be;
                 # one that cannot be evaluated over the rule's operands stays the assumption it is everywhere else
@@ -335,7 +359,7 @@ class Evaluator(Folder):
             if isinstance(st, ast.FunctionDef):
                 from .fold import _LocalFn
 
-                self.env[st.name] = _LocalFn(st, self.env)
+                self.env[st.name] = _LocalFn(st, self.env, (self.mod, self.cls))
         elif isinstance(st, (ast.Nonlocal, ast.Global)):
             if self.__dict__.get("outer_env") is None:
                 raise Unfoldable("statement %s outside a local function" % type(st).__name__)
@@ -681,6 +705,8 @@ class AObj(Sym):
             return len(r) > 0
         from .fold import _CURRENT
 
+        if "_base_" in self.__dict__ and not _defines(self, "__bool__") and not _defines(self, "__len__"):
+            return len(self.__dict__["_base_"]) > 0
         for nm in ("__bool__", "__len__"):
             m = self._ctx_.repo.lookup_method(self._cls_, nm)
             if m is not None:
@@ -695,14 +721,31 @@ class AObj(Sym):
     def __len__(self) -> int:
         r = self._record()
         if r is None:
+            if "_base_" in self.__dict__:
+                return len(self.__dict__["_base_"])
             raise TypeError("%s has no len()" % self._cls_.name)
         return len(r)
 
     def __getitem__(self, i: Any) -> Any:
         r = self._record()
         if r is None:
+            if "_base_" in self.__dict__ and not _defines(self, "__getitem__"):
+                return self.__dict__["_base_"][i]  # (KeyError / IndexError are the evaluated program's)
             raise TypeError("%s is not subscriptable" % self._cls_.name)
         return tuple(self)[i]
+
+    def __setitem__(self, i: Any, v: Any) -> None:
+        if "_base_" in self.__dict__ and not _defines(self, "__setitem__"):
+            self.__dict__["_base_"][i] = v
+            return
+        raise TypeError("%s does not support item assignment" % self._cls_.name)
+
+    def __contains__(self, x: Any) -> bool:
+        if "_base_" in self.__dict__ and not _defines(self, "__contains__"):
+            return x in self.__dict__["_base_"]
+        if self._record() is not None:
+            return x in tuple(self)
+        raise TypeError("%s is not a container" % self._cls_.name)
 
     def _replace(self, **kw: Any) -> "AObj":
         r = self._record()
@@ -722,6 +765,8 @@ class AObj(Sym):
         r = self._record()
         if r is not None:
             return iter([self.__dict__[k] for k in r])
+        if "_base_" in self.__dict__ and not _defines(self, "__iter__"):
+            return iter(list(self.__dict__["_base_"]))
         # iteration over an abstract instance: the class's own __iter__, evaluated
         from .fold import _CURRENT
 
@@ -747,6 +792,9 @@ def aobj_member(f: Folder, obj: AObj, attr: str) -> Any:
     for k in repo.mro(obj._cls_):
         if isinstance(k, ClassInfo) and attr in k.inner:
             return k.inner[attr]  # a class nested in the instance's class (`self.CastMode`)
+    base_ = obj.__dict__.get("_base_")
+    if base_ is not None and not attr.startswith("_") and callable(getattr(base_, attr, None)):
+        return _BaseMethod(base_, attr)
     raise Unfoldable("%s has no member %s" % (obj._cls_.name, attr))
 
 
@@ -870,7 +918,20 @@ def construct(ctx: Any, cls: ClassInfo, *args: Any, hook: Any = None, **kwargs: 
 
     repo = ctx.repo
     o = AObj(cls, ctx)
+    cb = container_base(repo, cls)
+    if cb is not None:
+        # a class derived from a builtin container (class M(dict): ...): the instance *is* such a container, plus its methods
+        o.__dict__["_base_"] = {"dict": dict, "list": list, "set": set}[cb]()
     stmts, chain = flatten_init(repo, cls, inline_props=False, node_of=ctx.inl)
+    if not chain and cb is not None:
+        try:
+            if cb == "dict":
+                o.__dict__["_base_"].update(*args, **kwargs)
+            elif args:
+                (o.__dict__["_base_"].extend if cb == "list" else o.__dict__["_base_"].update)(list(args[0]))
+        except (TypeError, ValueError) as ex:
+            raise Raised(type(ex).__name__, cls.node)
+        return o
     if not chain:
         is_nt = any((dotted(b) or "").split(".")[-1] == "NamedTuple" for k in repo.mro(cls) if isinstance(k, ClassInfo) for b in k.node.bases)
         if is_nt or any("dataclass" in (dotted(d.func) if isinstance(d, ast.Call) else dotted(d) or "") for d in cls.node.decorator_list):
@@ -920,6 +981,37 @@ def construct(ctx: Any, cls: ClassInfo, *args: Any, hook: Any = None, **kwargs: 
             env[p_] = Folder({}, repo, init.module, cls).fold(d)
     Evaluator(env, repo, init.module, cls, hook).run(stmts)
     return o
+
+
+_CONTAINER_BASES = {"dict": "dict", "Dict": "dict", "OrderedDict": "dict", "defaultdict": "dict", "list": "list", "List": "list", "set": "set", "Set": "set"}
+
+
+def container_base(repo: Any, cls: ClassInfo) -> Optional[str]:
+    """"dict" / "list" / "set" if the class derives from that builtin container (directly, through typing.Dict[...] etc.)"""
+    for k in repo.mro(cls):
+        if not isinstance(k, ClassInfo):
+            continue
+        for b in k.node.bases:
+            while isinstance(b, ast.Subscript):
+                b = b.value
+            d = (dotted(b) or "").split(".")[-1]
+            if d in _CONTAINER_BASES and (dotted(b) or "").split(".")[0] in ("typing", "collections", d):
+                return _CONTAINER_BASES[d]
+    return None
+
+
+class _BaseMethod(Abstract):
+    """a method of the builtin container an instance derives from (`self.get(k)` in `class M(dict)`)"""
+
+    def __init__(self, base: Any, name: str):
+        self.base, self.name = base, name
+
+    def __call__(self, *a: Any, **k: Any) -> Any:
+        try:
+            r = getattr(self.base, self.name)(*a, **k)
+        except (KeyError, IndexError, ValueError) as ex:
+            raise Raised(type(ex).__name__, ast.parse("x.%s()" % self.name, mode="eval").body)
+        return list(r) if self.name in ("keys", "values", "items") else r
 
 
 def set_public(o: AObj, **public: Any) -> AObj:
